@@ -2,6 +2,10 @@
 otherwise a boundary search (first,last,suffix,length in 0..12 and around 2^32, 2^63, 2^64) against an
 RFC 9110 reference, on the real `s3s::dto::Range::check` through the replay binary."""
 def find(ctx, oblig, diag):
+    if "parse" in oblig:
+        res = ctx["replay_tool"](["range-parse-search"])
+        if res.get("violates"): res["source"] = "header texts near the grammar against an RFC 9110 reference parser, on the real Range::parse"
+        return res
     k = ctx["companions"].get("kani_range") or {}
     for f in k.get("failed", []):
         if f.get("replay_args"):
@@ -14,4 +18,7 @@ def find(ctx, oblig, diag):
         res["source"] = "boundary search replayed on the real crate"
     return res
 
-standing = find
+def standing(ctx, oblig, diag):
+    res = ctx["replay_tool"](["range-parse-search"])
+    if res.get("violates"): res["source"] = "header texts near the grammar against an RFC 9110 reference parser, on the real Range::parse"; return res
+    return find(ctx, "", diag)
